@@ -20,6 +20,7 @@ The oracle (`rule`) is the declarative rule of the property text on the encoding
 import json
 import itertools
 from fractions import Fraction
+from decimal import Decimal
 from common import *   # noqa
 
 ID = 'C20'
@@ -50,6 +51,8 @@ REQUIRED_COUNTERS = [
     'nom:basic', 'nom:person', 'nom:party', 'blank', 'coalition', 'wrong_container', 'nested_candidate',
     'empty_ballot', 'level_miss', 'score_out_of_range', 'sum_boundary', 'nonnumeric_score', 'malformed_stream',
     'elim_some_removed', 'elim_all_kept', 'via_checker_objects', 'via_plain_dicts', 'op:shape',
+    'score_decimal_on_sum_bound', 'score_fraction_on_sum_bound', 'score_bigint_sum_bound', 'score_huge_int',
+    'score_sum_one_off', 'elim_exact_sum', 'empty_name_candidate',
 ]
 RULE = ('ballots from the grammar (str, Person with/without party, PoliticalParty, Coalition, blank votes, int, Fraction, None, '
         'other object, tuple, list, frozenset, set, dict, nested to depth 3) in a mostly-valid stream (valid ballot for the '
@@ -61,7 +64,9 @@ RULE = ('ballots from the grammar (str, Person with/without party, PoliticalPart
         'over six atoms (two strings, a Person, a blank vote, 1, None) with containers of at most two members x 72 configurations. '
         'Non-trivial = a container ballot or an eliminate call; distinct by canonical request.')
 NOT_VERIFIED = [
-    'numbers are modelled by their exact value (int and Fraction are not distinguished; Decimal and float are outside the grammar)',
+    'numbers are modelled by their exact value (int, Fraction and Decimal are not distinguished; float and bool are outside the grammar; '
+    'a ballot mixes ints with at most one of Fraction / Decimal, because Python cannot add a Decimal to a Fraction; Decimals stay below '
+    'the 28-digit context precision)',
     'a Python set is modelled as the list of its members in the iteration order observed on the real object (hash order)',
     'equality / hashing of Python values is modelled as structural equality of encodings (candidate objects by identity)',
     'candidate classes are modelled by kind (Person with/without candidacy_for, PoliticalParty, Coalition, BlankVoteOption); '
@@ -82,7 +87,7 @@ LEVEL_NOTE = ('Trusted: Lean kernel + propext/Classical.choice/Quot.sound; the c
               'bounds: depth <= 3, <= 6 members) and the abstractions listed under modelled_not_verified.')
 
 KINDS = ['person_party', 'person_indep', 'party', 'coalition', 'blank']
-STRS = ['a', 'b', 'c', 'd', 'e', 'Hah', 'x', 'y', 'good', 'bad', 'zz', 'None']
+STRS = ['a', 'b', 'c', 'd', '', 'Hah', 'x', 'y', 'good', 'bad', 'zz', 'None']
 
 
 def sname(i):
@@ -132,6 +137,8 @@ class Pool:
             return self.cand(e['c'], e['id'])
         if 'n' in e:
             f = Fraction(e['n'])
+            if e.get('D') and to_decimal(f) is not None:
+                return to_decimal(f)
             return int(f) if f.denominator == 1 and not e.get('F') else f
         if 'o' in e:
             return self.cand('other', e['o'])
@@ -153,7 +160,7 @@ class Pool:
             return None
         if isinstance(o, str):
             return {'s': STRS.index(o) if o in STRS else int(o[1:])}
-        if isinstance(o, (int, Fraction)) and not isinstance(o, bool):
+        if isinstance(o, (int, Fraction, Decimal)) and not isinstance(o, bool):
             return {'n': num_str(o)}
         if isinstance(o, tuple):
             return {'t': [self.encode(x, depth + 1) for x in o]}
@@ -190,7 +197,7 @@ def canon_obj(e):
             return {k: [xs[s] for s in sorted(xs)]}
     if 'd' in e:
         return {'d': [[canon_obj(x) for x in e['d'][0]], [canon_obj(x) for x in e['d'][1]]]}
-    return {k: v for k, v in e.items() if k != 'F'}
+    return {k: v for k, v in e.items() if k not in ('F', 'D')}
 
 
 def ckey(e):
@@ -208,13 +215,43 @@ def members(e):
     return out
 
 
+def to_decimal(f):
+    """the Decimal equal to a Fraction (None if it has no finite decimal expansion of at most 25 digits)"""
+    d = Decimal(f.numerator) / Decimal(f.denominator)
+    return d if Fraction(d) == f and len(d.as_tuple().digits) <= 25 else None
+
+
+def bfrac(x):
+    """exact value of a bound string 'p/q' or 'D:p/q' (the latter is handed to votelib as a Decimal)"""
+    return Fraction(x[2:] if x.startswith('D:') else x)
+
+
 def py_bounds(b):
     def one(x):
         if x is None:
             return None
-        f = Fraction(x)
+        f = bfrac(x)
+        if x.startswith('D:') and to_decimal(f) is not None:
+            return to_decimal(f)
         return int(f) if f.denominator == 1 else f
     return (one(b[0]), one(b[1]))
+
+
+def plain_bounds(b):
+    return [None if x is None else num_str(bfrac(x)) for x in b]
+
+
+def plain_val(val):
+    """the configuration as the Lean model sees it: bounds as exact rationals"""
+    out = {k: v for k, v in val.items() if k != 'via'}
+    for k in ('count', 'total', 'n', 'range'):
+        if k in out:
+            out[k] = plain_bounds(out[k])
+    for k in ('rank', 'sum'):
+        if out.get(k) is not None:
+            bm = out[k]
+            out[k] = {'all': plain_bounds(bm['all'])} if 'all' in bm else {'by': [[kk, plain_bounds(b)] for kk, b in bm['by']]}
+    return out
 
 
 def py_boundmap(bm):
@@ -329,7 +366,7 @@ def model_line(case):
         return {'op': 'shape', 'vote': pool.encode(obj)}
     # explicit plain-dict checkers are wrapped into a defaultdict by the constructors (84faad8): same model
     pool, validator, obj = _built(case)
-    val = {k: v for k, v in case['val'].items() if k != 'via'}
+    val = plain_val(case['val'])
     if val['vt'] == 'ranked' and val.get('rank') is None:
         val['rank'] = {'all': ['1', '1']}          # the constructor's default
     if val['vt'] == 'enum':
@@ -383,7 +420,7 @@ def admits(nom, e):
 def within(b, x):
     """inclusive bounds, None = unbounded"""
     lo, hi = b
-    return (lo is None or Fraction(lo) <= x) and (hi is None or x <= Fraction(hi))
+    return (lo is None or bfrac(lo) <= x) and (hi is None or x <= bfrac(hi))
 
 
 def active(b):
@@ -561,10 +598,12 @@ def Cd(kind, i=0):
     return {'c': kind, 'id': i}
 
 
-def N(x, F=False):
+def N(x, F=False, D=False):
     e = {'n': num_str(Fraction(x))}
     if F:
         e['F'] = 1
+    if D:
+        e['D'] = 1
     return e
 
 
@@ -789,13 +828,15 @@ def gen_score(rng, tags, vt, hashable=False, nom=None):
     nom = nom or gen_nom(rng)
     n = rng.choice([0, 1, 1, 2, 2, 3, 3, 4])
     cands = pick_cands(rng, nom, n)
+    fk = rng.choice(['F', 'D'])            # one non-int numeric type per ballot (Decimal + Fraction cannot be added)
     if vt == 'enum':
         levels = rng.choice(LEVEL_SETS)
         scores = [rng.choice(levels) if levels else N(1) for _ in cands]
     else:
         levels = None
         kind = rng.random()
-        scores = [N(rng.randint(-2, 6)) if kind < 0.7 else N(Fraction(rng.randint(-4, 12), 2), F=rng.random() < 0.5) for _ in cands]
+        scores = [N(rng.randint(-2, 6), **{fk: rng.random() < 0.2}) if kind < 0.7 else N(Fraction(rng.randint(-4, 12), 2), **{fk: True})
+                  for _ in cands]
     items = [{'t': [c, s]} for c, s in zip(cands, scores)]
     if not items:
         tags.append('empty_ballot')
@@ -859,8 +900,8 @@ def gen_score(rng, tags, vt, hashable=False, nom=None):
             else:
                 hi = val['range'][1]
                 lo = val['range'][0]
-                x = Fraction(hi) + 1 if hi is not None else (Fraction(lo) - 1 if lo is not None else Fraction(50))
-                items[i] = {'t': [cands[i], N(x)]}
+                x = bfrac(hi) + 1 if hi is not None else (bfrac(lo) - 1 if lo is not None else Fraction(50))
+                items[i] = {'t': [cands[i], N(x, **{fk: True})]}
                 if hi is not None or lo is not None:
                     tags.append('score_out_of_range')
         else:
@@ -966,6 +1007,29 @@ def directed(rng):
                        ['via_checker_objects', 'upper_bound_hit']))
     out.append(mk_case({'vt': 'ranked', 'total': [None, None], 'rank': {'by': [[1, ['1', '1']]]}, 'nom': basic, 'via': 'plain_dicts'},
                        {'t': [S(0), S(1)]}, ['via_plain_dicts', 'rank_dict']))
+    # exact score sums on an inclusive bound: Decimal / Fraction / big int / huge int scores
+    tenth, fifth = Fraction(1, 10), Fraction(1, 5)
+    out.append(mk_case({'vt': 'range', 'n': [None, None], 'sum': {'all': [None, 'D:3/10']}, 'range': ['0', '1'], 'nom': basic},
+                       {'f': [{'t': [S(0), N(tenth, D=True)]}, {'t': [S(1), N(fifth, D=True)]}]},
+                       ['exact_sum', 'score_decimal_on_sum_bound', 'sum_boundary']))
+    out.append(mk_case({'vt': 'enum', 'n': [None, None], 'sum': {'all': ['3/10', '3/10']}, 'nom': basic,
+                        'levels': [N(tenth), N(fifth)]},
+                       {'f': [{'t': [S(0), N(tenth, F=True)]}, {'t': [S(4), N(fifth, F=True)]}]},
+                       ['exact_sum', 'score_fraction_on_sum_bound', 'sum_boundary']))
+    out.append(mk_case({'vt': 'range', 'n': [None, None], 'sum': {'by': [[3, ['D:3/5', None]]]}, 'range': [None, None], 'nom': basic},
+                       {'f': [{'t': [S(0), N(tenth, D=True)]}, {'t': [S(1), N(fifth, D=True)]}, {'t': [S(2), N(Fraction(3, 10), D=True)]}]},
+                       ['exact_sum', 'score_decimal_on_sum_bound', 'sum_dict', 'sum_boundary']))
+    out.append(mk_case({'vt': 'range', 'n': [None, None], 'sum': {'all': [None, str(2 ** 53)]}, 'range': [None, None], 'nom': basic},
+                       {'f': [{'t': [S(0), N(2 ** 53)]}, {'t': [S(1), N(1)]}]},
+                       ['exact_sum', 'score_bigint_sum_bound', 'score_sum_one_off']))
+    out.append(mk_case({'vt': 'range', 'n': [None, None], 'sum': {'all': [None, '10']}, 'range': [None, None], 'nom': basic},
+                       {'f': [{'t': [S(0), N(10 ** 400)]}]}, ['exact_sum', 'score_huge_int']))
+    out.append({'op': 'eliminate',
+                'val': {'vt': 'range', 'n': [None, None], 'sum': {'all': [None, 'D:3/10']}, 'range': [None, None], 'nom': basic},
+                'votes': [[{'f': [{'t': [S(0), N(tenth, D=True)]}, {'t': [S(1), N(fifth, D=True)]}]}, '3'],
+                          [{'f': [{'t': [S(0), N(fifth, D=True)]}, {'t': [S(1), N(fifth, D=True)]}]}, '2']],
+                '_tags': ['elim_exact_sum', 'exact_sum', 'score_decimal_on_sum_bound']})
+    out.append(mk_case({'vt': 'ranked', 'total': [None, None], 'rank': None, 'nom': basic}, {'t': [S(4), S(0)]}, ['empty_name_candidate']))
     # eliminator: all kept / some removed / escaping errors
     val = {'vt': 'ranked', 'total': ['1', '3'], 'rank': None, 'nom': basic}
     out.append({'op': 'eliminate', 'val': val, 'votes': [[{'t': [S(0)]}, '3'], [{'t': [S(0), S(1)]}, '5/2']], '_tags': ['elim_all_kept']})
@@ -1022,9 +1086,104 @@ def gen_eliminate(rng, tags):
     return {'op': 'eliminate', 'val': val, 'votes': votes, '_tags': ['op:eliminate'] + tags}
 
 
+DEC_SCORES = [Fraction(1, 10), Fraction(1, 5), Fraction(3, 10), Fraction(7, 10), Fraction(11, 10), Fraction(2675, 1000),
+              Fraction(1, 100), Fraction(-1, 10), Fraction(33, 100), Fraction(1, 8)]
+FRAC_SCORES = [Fraction(1, 10), Fraction(1, 5), Fraction(1, 3), Fraction(2, 7), Fraction(3, 10), Fraction(1, 6), Fraction(-1, 3),
+               Fraction(5, 9), Fraction(1, 49), Fraction(7, 10)]
+BIG_SCORES = [2 ** 53, 2 ** 53 + 1, 1, 1, 2, 2 ** 60 + 1, 2 ** 53 - 1, 3, 10 ** 17 + 1, -(2 ** 53)]
+
+
+def gen_exact_sum(rng, eliminate=False):
+    """score ballots whose scores arrive as Decimal / Fraction / big int and whose exact sum lies on, or one unit / one tiny
+    fraction off, an inclusive sum bound (tuple or per-count dictionary), for both score validators"""
+    kind = rng.choice(['decimal', 'fraction', 'bigint', 'huge'])
+    vt = rng.choice(['enum', 'range'])
+    nom = {'k': 'basic', 'blank': True}
+    n = rng.choice([1, 2, 2, 3, 3, 4])
+    if kind == 'decimal':
+        vals = [rng.choice(DEC_SCORES) for _ in range(n)]
+        scores = [N(v, D=True) for v in vals]
+        unit = rng.choice([Fraction(1, 10), Fraction(1, 10 ** 17), Fraction(1, 1000)])
+    elif kind == 'fraction':
+        vals = [rng.choice(FRAC_SCORES) for _ in range(n)]
+        scores = [N(v, F=True) for v in vals]
+        unit = rng.choice([Fraction(1, 10), Fraction(1, 10 ** 17), Fraction(1, 3 * 2 ** 60)])
+    elif kind == 'bigint':
+        vals = [rng.choice(BIG_SCORES) for _ in range(n)]
+        if not any(abs(v) >= 2 ** 53 for v in vals):
+            vals[0] = 2 ** 53
+        scores = [N(v) for v in vals]
+        unit = Fraction(1)
+    else:
+        vals = [10 ** 400 * rng.choice([1, 1, -1])] + [rng.choice([1, 2, 10 ** 400, 7]) for _ in range(n - 1)]
+        scores = [N(v) for v in vals]
+        unit = Fraction(1)
+    cands = [S(i) for i in rng.sample(range(6), n)]
+    total = sum((Fraction(v) for v in vals), Fraction(0))
+    pre = 'D:' if (kind == 'decimal' and rng.random() < 0.7) else ''
+
+    def b(x):
+        return None if x is None else pre + num_str(Fraction(x))
+    place = rng.choice(['on_hi', 'on_lo', 'on_both', 'above_hi', 'below_lo', 'inside'])
+    tags = ['exact_sum', 'sum_boundary']
+    if place == 'on_hi':
+        sb = [rng.choice([None, b(total - 3 * unit)]), b(total)]
+    elif place == 'on_lo':
+        sb = [b(total), rng.choice([None, b(total + 3 * unit)])]
+    elif place == 'on_both':
+        sb = [b(total), b(total)]
+    elif place == 'above_hi':
+        sb = [None, b(total - unit)]
+        tags.append('score_sum_one_off')
+    elif place == 'below_lo':
+        sb = [b(total + unit), None]
+        tags.append('score_sum_one_off')
+    else:
+        sb = [b(total - unit), b(total + unit)]
+    on = place.startswith('on_')
+    if kind == 'decimal' and on:
+        tags.append('score_decimal_on_sum_bound')
+    if kind == 'fraction' and on:
+        tags.append('score_fraction_on_sum_bound')
+    if kind == 'bigint':
+        tags.append('score_bigint_sum_bound')
+    if kind == 'huge':
+        tags.append('score_huge_int')
+    if rng.random() < 0.5:
+        sm = {'all': sb}
+    else:
+        tags.append('sum_dict')
+        sm = {'by': [[n, sb]] + [[k, [None, '0']] for k in rng.sample(range(6), 2) if k != n]}
+    val = {'vt': vt, 'n': [None, None], 'sum': sm, 'nom': nom}
+    if vt == 'enum':
+        val['levels'] = [canon_obj(x) for x in scores] + [N(5)]
+    else:
+        val['range'] = rng.choice([[None, None], [None, None], [num_str(min(Fraction(v) for v in vals)), None]])
+    if rng.random() < 0.2:
+        val['via'] = 'plain_dicts' if 'by' in sm else 'checkers'
+    vote = {'f': [{'t': [c, x]} for c, x in zip(cands, scores)]}
+    if not eliminate:
+        return mk_case(val, vote, tags)
+    # the same configuration around three ballots: on the bound, and one unit to either side
+    votes = [[vote, '3']]
+    for delta in (unit, -unit):
+        k = 'D' if kind == 'decimal' else 'F'
+        x = N(Fraction(vals[0]) + delta, **({k: True} if kind in ('decimal', 'fraction') else {}))
+        v2 = {'f': [{'t': [cands[0], x]}] + vote['f'][1:]}
+        if vt == 'enum':
+            val['levels'] = val['levels'] + [canon_obj(x)]
+        votes.append([v2, rng.choice(['1', '5/2', str(10 ** 20)])])
+    rng.shuffle(votes)
+    return {'op': 'eliminate', 'val': val, 'votes': votes, '_tags': ['op:eliminate', 'elim_exact_sum'] + tags}
+
+
 def _gen(rng, tier):
     for c in directed(rng):
         yield c
+    for _ in range(500 if tier == 'quick' else 12000):
+        yield gen_exact_sum(rng)
+    for _ in range(150 if tier == 'quick' else 3000):
+        yield gen_exact_sum(rng, eliminate=True)
     n_main = 9000 if tier == 'quick' else 60000
     for _ in range(n_main):
         tags = []
@@ -1133,6 +1292,8 @@ def generate(rng, tier):
             s = json.dumps(c['vote'])
             if '"blank"' in s:
                 tags.append('blank')
+            if '{"s": 4}' in s:
+                tags.append('empty_name_candidate')
             if '"coalition"' in s:
                 tags.append('coalition')
         else:
